@@ -10,6 +10,7 @@ from mirsym.sym import State, FE, Agg, Enum, Ref, BV, Inconclusive, UNIT
 from mirsym.models import deref, _const_limbs, _limbs
 from . import common as C
 from . import kani_common as K
+from mirsym.models import canon_poly as D_canon
 
 
 def fq2_sqrt(ctx, ids):
@@ -34,15 +35,32 @@ def fq2_sqrt(ctx, ids):
         ex.store(st, a[0], FE(x.ty, FROB(C.zi(x.e))))
         return UNIT
     extra = [(r'<fq2::Fq2 as (?:ff::)?Field>::pow::<.+>', h_pow), (r'<fq2::Fq2 as (?:ff::)?Field>::frobenius_map', h_frob)]
-    ex = C.new_executor(ctx, extra + D.models())
+    # code may look at the components of an Fq2 value: uninterpreted projections into an abstract Fq with  a = 0 <=> c0 = 0 and c1 = 0
+    Dc = models.RingDomain(r'fq::Fq', 'K2c')
+    CMP = [z3.Function('c0_of', z3.IntSort(), z3.IntSort()), z3.Function('c1_of', z3.IntSort(), z3.IntSort())]
+    ex = C.new_executor(ctx, extra + D.models() + Dc.models())
     chk.axioms += [D.isz(z3.IntVal(0)), z3.Not(D.isz(z3.IntVal(1)))]
+    projected = []
+
+    def fe_field(v, i):
+        if isinstance(v, FE) and v.ty == 'fq2::Fq2' and i in (0, 1):
+            projected.append(C.zi(v.e))
+            return FE('fq::Fq', CMP[i](C.zi(v.e)))
+        return None
+    ex.fe_field = fe_field
     consts2 = {}
 
     def hook(v):
-        l0, l1 = _const_limbs(v.f[0]), _const_limbs(v.f[1])
-        if l0 is None or l1 is None:
+        def comp(c):
+            if isinstance(c, FE) and isinstance(c.e, int):
+                return c.e % ref.Q
+            l = _const_limbs(c)
+            if l is None:
+                return None
+            return ref.from_mont(sum(x << (64 * i) for i, x in enumerate(l)))
+        val = (comp(v.f[0]), comp(v.f[1]))
+        if val[0] is None or val[1] is None:
             return None
-        val = tuple(ref.from_mont(sum(x << (64 * i) for i, x in enumerate(l))) for l in (l0, l1))
         if val == (0, 0):
             return FE('fq2::Fq2', 0)
         if val == (1, 0):
@@ -55,6 +73,8 @@ def fq2_sqrt(ctx, ids):
     st = State()
     ra = ex.alloc(st, FE('fq2::Fq2', a))
     res = ex.call(st, '<fq2::Fq2 as ff::SqrtField>::sqrt', [ra])
+    for t_ in [a] + projected:
+        chk.axioms.append(D.isz(D_canon(t_)) == z3.And(Dc.iszero(CMP[0](t_)), Dc.iszero(CMP[1](t_))))
     q = ref.Q
     e1, e2 = (q - 3) // 4, (q - 1) // 2
     chk.ground('Fq2::sqrt exponent literals are (q-3)/4 and (q-1)/2', set(pows) == {e1, e2}, str([hex(e)[:20] for e in pows]))
@@ -97,6 +117,49 @@ def fq2_sqrt(ctx, ids):
     chk.add_executor(ex2)
 
 
+def native_differential(ctx):
+    """the real Fq2::sqrt (native release + dev builds) on inputs chosen per branch class, against Euler's criterion computed here:
+    Some(b) with b^2 = a for squares, None for non-squares."""
+    import random
+    from mirsym import load
+    chk = ctx.chk
+    q = ref.Q
+    rnd = random.Random(ctx.seed * 17 + 3)
+    ins = [(0, 0), (1, 0), (q - 1, 0), (4, 0), (5, 0), (q - 4, 0), (0, 1), (0, 2), (0, q - 1), (0, 7), (0, rnd.randrange(q)), (1, 1), (2, 1)]
+    for _ in range(6):
+        z_ = (rnd.randrange(q), rnd.randrange(q))
+        ins.append(z_)
+        ins.append(ref.f2_sqr(z_))
+    # non-residues of Fq embedded in Fq2 (alpha = -1 branch) and elements of norm non-residue
+    ins += [(11, 0), (q - 11, 0)]
+    cmds = ['fq2_sqrt %x %x' % z_ for z_ in ins]
+    bad = {}
+    for profile in ('release', 'dev'):
+        n = load.Native(profile)
+        try:
+            outs = n.run(cmds)
+        finally:
+            n.close()
+        for z_, c_, o in zip(ins, cmds, outs):
+            sq = ref.f2_is_square(z_)
+            parts = o.split()
+            ok = False
+            if parts and parts[0] == 'none':
+                ok = not sq
+            elif parts and parts[0] == 'some' and len(parts) == 3:
+                b = (int(parts[1], 16), int(parts[2], 16))
+                ok = sq and ref.f2_sqr(b) == (z_[0] % q, z_[1] % q)
+            if not ok:
+                bad.setdefault(c_, {})[profile] = o[:120]
+    chk.extra['native_differential'] = {'inputs': len(cmds), 'failing': len(bad)}
+    chk.ground('native Fq2::sqrt: Some(b) with b^2 = a exactly for squares (Euler), None otherwise, on %d branch-class / seeded inputs, both builds' % len(cmds), not bad, str(list(bad.items())[:2])[:300])
+    if bad:
+        chk.ground_handled = getattr(chk, 'ground_handled', {})
+        chk.ground_handled[chk.grounds[-1][0]] = True
+        c0 = sorted(bad)[0]
+        ctx.violation('sqrt-native:fq2', 'Fq2::sqrt is wrong on %d inputs, e.g. %s -> %s' % (len(bad), c0, bad[c0]), {'failing_inputs': bad, 'replay_cmd': 'build /verif/replay against /repo and feed: ' + c0})
+
+
 def run(ctx):
     chk = ctx.chk
     ctx.explanation = ('Kani/CBMC over sgn0 / ordering code for all canonical values; ring-domain conformance of Fq2::sqrt to Alg. 9 with pow and Frobenius '
@@ -104,10 +167,14 @@ def run(ctx):
     ids = C.Identities(ctx, 'sqrt')
     only = getattr(ctx, 'only', None)
     if not only or 'S' in only:
-        fq2_sqrt(ctx, ids)
+        try:
+            fq2_sqrt(ctx, ids)
+        except Inconclusive as e:
+            ctx.inconclusive('fq2_sqrt: encoder: %s' % e)
         chk.discharge()
         ids.settle()
         C.settle_structural(ctx, ('case-structure',), 'sqrt')
+        native_differential(ctx)
     if not only or 'K' in only:
         K.run_harnesses(ctx, 'c18')
         K.report_failures(ctx, 'sgn0-order')
